@@ -102,7 +102,7 @@ func genCase(r *fw.Rand) fw.Case {
 			}
 			ops = append(ops, fmt.Sprintf("createsg %s %s now%+d", db, rp, offs[r.Intn(len(offs))]-int64(r.Intn(1000))))
 		case 5:
-			ops = append(ops, fmt.Sprintf("deletesg db0 rp%d %d %s", r.Intn(nrp), 1+r.Intn(ngroups+1), []string{"recent", "old"}[r.Intn(2)]))
+			ops = append(ops, fmt.Sprintf("deletesgid %d %s", 1+r.Intn(ngroups+1), []string{"recent", "old"}[r.Intn(2)]))
 		case 6:
 			ops = append(ops, fmt.Sprintf("truncate now%+d", offs[r.Intn(len(offs))]))
 		case 7:
